@@ -207,6 +207,16 @@ def examine_point(ck: Check, system, idx: int, label: str, exact=None, rnd=None)
             Hx[0, 4] = Hx[4, 0] = -1.0
             Hx[:3, :3] = np.diag([1.0, 1.0, 0.0]) - A[3:6, 0:3]
             tr.obs("normal_form", float(np.max(np.abs(C.T @ Hx @ C - np.diag([w1, w2, wz, w1, w2, wz])))))
+    # other objects are built FROM the point between the two rounds of reads (orbits of every family that has an analytic seed):
+    # the point is not theirs to change (LibrationObject.tla: a re-read returns the value first returned)
+    if idx <= 2:
+        for fam, kw in (("lyapunov", dict(amplitude_x=1e-3)), ("halo", dict(amplitude_z=1e-2, zenith="northern")),
+                        ("lyapunov", dict(amplitude_x=2e-3))):
+            try:
+                o = L.create_orbit(fam, **kw)
+                _ = np.asarray(o.initial_state, dtype=float) + 0.0
+            except Exception:  # noqa -- the analytic seed is not valid for every witness (tiny gamma): not the subject here
+                pass
     # second round of reads: memoisation must return identical values without recomputation
     tr.read("position", lambda: L.position)
     if idx <= 3:
